@@ -22,7 +22,7 @@ FINDING_LIST = "C02-no-list-support"
 
 
 def run(c):
-    c.go2coq_sources = ["filters.go", "filters_types.go", "filters_state.go"]   # private translator build: another family's generator cannot break this check
+    c.go2coq_sources = ["filters.go", "filters_types.go", "filters_state.go", "filters_helpers.go"]   # private translator build: another family's generator cannot break this check
     c.rule = ("every documented predicate x argument as a single-capture rule, a `$*xs` rule and a statement-capture rule over "
               "172 expression shapes (all type classes, constants, aliases, generics), 30 argument lists, 12 statements and 37 "
               "sink contexts; evaluations count (rule, site) pairs; a case is distinct by (predicate+argument, rule kind, site) "
@@ -41,8 +41,8 @@ def run(c):
         "statement captures are compared with the model only (the documentation speaks about expressions)",
     ]
 
-    build_own_theories(c, "Base/Outcome.v", "Filters/FilterIR.v", "Filters/FilterAlgebra.v", "Filters/Predicates.v", "Filters/FilterEval.v")
-    c.require_theories("Base/Outcome.v", "Filters/FilterIR.v", "Filters/FilterAlgebra.v", "Filters/Predicates.v", "Filters/FilterEval.v")
+    build_own_theories(c, "Base/Outcome.v", "Filters/FilterIR.v", "Filters/FilterAlgebra.v", "Filters/Predicates.v", "Filters/FilterEval.v", "Filters/ExprFacts.v")
+    c.require_theories("Base/Outcome.v", "Filters/FilterIR.v", "Filters/FilterAlgebra.v", "Filters/Predicates.v", "Filters/FilterEval.v", "Filters/ExprFacts.v")
 
     # ---- P
     gen_ok = False
@@ -63,6 +63,59 @@ def run(c):
         return c.finish()
 
     state = {"n": 0}
+    model_in = {}
+
+    OBJECT_KINDS = ["Func", "Var", "Const", "TypeName", "Label", "PkgName", "Builtin", "Nil"]
+    SINK_PATTERNS = ["int", "int64", "interface{}", "string"]
+
+    def compare_helpers(rules, alias):
+        """K for the syntactic helpers: is_pure / is_constant_slice / object_is / object_is_global / find_sink of
+        RG.Filters.ExprFacts, executed on every probe expression and sink context, against the engine's verdicts."""
+        gex, gsi = model_in.get(alias, ([], []))
+        if not gen_ok or not gex or not gsi:
+            return
+        byname = {}
+        for r in rules:
+            if r["kind"] in ("single", "root") and not (r.get("load_err") or r.get("panic")):
+                byname[(r["name"], r["kind"])] = r
+        cols = [("Pure", "single", "is_pure"), ("ConstSlice", "single", "is_constant_slice"), ("Object.IsGlobal", "single", "object_is_global")]
+        cols += [("Object.Is:" + k, "single", '(object_is "%s")' % k) for k in OBJECT_KINDS]
+        scols = [("SinkType.Is:" + q, "root", '(fun s => String.eqb (find_sink s) "%s")' % q) for q in SINK_PATTERNS]
+        src = ["From Coq Require Import List Bool String.", "From RG.Filters Require Import FilterIR Predicates ExprFacts.",
+               "Import ListNotations. Local Open Scope string_scope.",
+               "Definition exprs : list gexpr := [", ";\n".join(g["coq"] for g in gex), "].",
+               "Definition sinks : list sink_parent := [", ";\n".join(g["coq"] for g in gsi), "]."]
+        wanted = []
+        for i, (name, kind, fn) in enumerate(cols + scols):
+            r = byname.get((name, kind))
+            if r is None:
+                continue
+            inputs = gex if kind == "single" else gsi
+            if [o["site"] for o in r["obs"]] != [g["site"] for g in inputs]:
+                c.obligation("harness-sanity:model-inputs-aligned", False, "%s: the probe sites of the rule and the model inputs differ" % name)
+                return
+            src.append("Definition RES%d := Eval vm_compute in map %s %s." % (i, fn, "exprs" if kind == "single" else "sinks"))
+            src.append("Print RES%d." % i)
+            wanted.append((i, name, r, inputs))
+        ok, out = c.coq_eval("Helpers_%s.v" % alias, "\n".join(src), timeout=600)
+        if not ok:
+            c.obligation("coq-eval:Helpers_%s.v" % alias, False, out[-2000:])
+            return
+        for i, name, r, inputs in wanted:
+            m = re.search(r"RES%d\s*=\s*\[(.*?)\]\s*:\s*list bool" % i, out, re.S)
+            if not m:
+                c.obligation("coq-eval-parse:Helpers_%s.v" % alias, False, out[-1500:])
+                return
+            pred = [x.strip() == "true" for x in m.group(1).split(";")] if m.group(1).strip() else []
+            if len(pred) != len(r["obs"]):
+                c.obligation("coq-eval-parse:Helpers_%s.v" % alias, False, "RES%d has %d entries for %d sites" % (i, len(pred), len(r["obs"])))
+                return
+            for o, pv, g in zip(r["obs"], pred, inputs):
+                if o["verdict"] != pv:
+                    c.fail("corr", "engine verdict of %s differs from the Coq model of the helper (RG.Filters.ExprFacts)" % name,
+                           input={"where": r["src"], "pattern": r["pattern"], "gotypesalias": alias, "site": o["site"], "model_input": g["coq"]},
+                           expected=pv, observed=o["verdict"])
+            c.coverage["helper_model_cases"] = c.coverage.get("helper_model_cases", 0) + len(pred)
 
     def observe(alias, only=None):
         args = ["-tmp", os.path.join(c.work, "tmp")]
@@ -72,6 +125,8 @@ def run(c):
         rules = [json.loads(l) for l in out.splitlines() if l.startswith('{"k":"rule"')]
         if rc != 0 or not rules:
             c.obligation("harness-run:c02(gotypesalias=%s)" % alias, False, out[-3000:])
+        model_in[alias] = ([json.loads(l) for l in out.splitlines() if l.startswith('{') and '"k":"gexpr"' in l],
+                           [json.loads(l) for l in out.splitlines() if l.startswith('{') and '"k":"gsink"' in l])
         return rules
 
     def expected(o):
@@ -197,7 +252,9 @@ def run(c):
             c.sample({"ctor": k[0], "shape": k[1], "facts": list(k[2]), "verdict": k[5], "site": tuples[k].get("site")})
 
     for alias in ("0", "1"):
-        compare(observe(alias), alias)
+        rules = observe(alias)
+        compare(rules, alias)
+        compare_helpers(rules, alias)
     missing = {k: sorted(set(LIST_CLASSES) - v) for k, v in list_cov.items() if set(LIST_CLASSES) - v}
     for k in sorted(k for k, v in lifted.items() if v and k not in list_cov):
         missing[k] = list(LIST_CLASSES)
